@@ -3,5 +3,5 @@
 PROPS = {
     'C04': ['mpgverif.harness.callvariant_loop'],
     'C06': ['mpgverif.harness.callvariant_loop'],
-    'C07': ['mpgverif.harness.callvariant_loop'],
+    'C07': ['mpgverif.harness.callvariant_loop', 'mpgverif.harness.c07_wrapper'],
 }
